@@ -466,7 +466,8 @@ func (p *PathExpr) CommentGroup() (head, leading CommentGroup) {
 }
 
 func (p *PathExpr) Format(prefix ...string) string {
-	pathNode := transferTokenNode(p.Value, ignoreComment())
+	// the comment behind the path is kept: the writer breaks the line there anyway
+	pathNode := transferTokenNode(p.Value, ignoreHeadComment())
 	return pathNode.Format(prefix...)
 }
 
@@ -555,8 +556,9 @@ func (e *BodyExpr) End() token.Position {
 
 func (e *BodyExpr) Format(...string) string {
 	w := NewBufferWriter()
+	// the comment lines in front of the first token are kept: the writer breaks the line for them anyway
 	if e.LBrack != nil {
-		lbrackNode := transferTokenNode(e.LBrack, ignoreComment())
+		lbrackNode := transferTokenNode(e.LBrack, ignoreLeadingComment())
 		rbrackNode := transferTokenNode(e.RBrack, ignoreComment())
 		if e.Star != nil {
 			starNode := transferTokenNode(e.Star, ignoreComment())
@@ -565,7 +567,7 @@ func (e *BodyExpr) Format(...string) string {
 			w.Write(withNode(lbrackNode, rbrackNode, e.Value), withInfix(NilIndent), expectSameLine())
 		}
 	} else if e.Star != nil {
-		starNode := transferTokenNode(e.Star, ignoreComment())
+		starNode := transferTokenNode(e.Star, ignoreLeadingComment())
 		w.Write(withNode(starNode, e.Value), withInfix(NilIndent), expectSameLine())
 	} else {
 		w.Write(withNode(e.Value))
